@@ -870,3 +870,10 @@ M('c01o-d36-buffer-not-terminated', 'C01', 'break', 'htp/htp_multipart.c',
 M('c01o-zero-filled-first-keep', 'C01', 'keep', 'htp/htp_multipart.c',
   "                        strncpy(buf, part->parser->extract_dir, 254);\n                        buf[254] = '\\0';\n",
   "                        memset(buf, 0, sizeof(buf));\n                        strncpy(buf, part->parser->extract_dir, 254);\n")
+
+# ---------------- C07.l time budget clock (D37)
+M('c07l-d37-request-clock-not-started', 'C07', 'break', TX,
+  '            gettimeofday(&tx->connp->req_decompressor->time_before, NULL);\n', '', 'C07.l')
+M('c07l-response-clock-started-after-the-call', 'C07', 'break', TX,
+  '            gettimeofday(&tx->connp->out_decompressor->time_before, NULL);\n            // Send data buffer to the decompressor.\n            tx->connp->out_decompressor->nb_callbacks=0;\n            htp_gzip_decompressor_decompress(tx->connp->out_decompressor, &d);\n',
+  '            // Send data buffer to the decompressor.\n            tx->connp->out_decompressor->nb_callbacks=0;\n            htp_gzip_decompressor_decompress(tx->connp->out_decompressor, &d);\n            gettimeofday(&tx->connp->out_decompressor->time_before, NULL);\n', 'C07.l')
